@@ -27,8 +27,9 @@ GS_CONTRACT = '''#define V_NBITS(p,n) ((unsigned long) (n) * 64 - (unsigned long
 #define V_FIELD(p,n,o,k) ((((p)[(o) / 64] >> ((o) % 64)) | ((((o) % 64) + (k) > 64 && (o) / 64 + 1 < (n)) ? (p)[(o) / 64 + 1] << (64 - ((o) % 64)) : 0)) & ((1UL << (k)) - 1))
 size_t __gmpn_get_str (unsigned char *str, int base, mp_ptr up, mp_size_t un)
 __CPROVER_requires (base == V_BASE && 0 <= un && un <= V_NMAX && (un == 0 || (V_R_OK (up, un) && up[un - 1] != 0)))
-__CPROVER_requires (__CPROVER_w_ok (str, (64 * un + V_KC - 1) / V_KC + 1) && !__CPROVER_same_object (str, up) && 0 <= gj && gj <= 64 * V_NMAX && (un == 0 || V_DOK (up, un, V_KC)))
-__CPROVER_assigns (__CPROVER_object_upto (str, (64 * un + V_KC - 1) / V_KC + 1))
+/* room: exactly the digits that are written (the manual asks for more - room for the largest un-limb number plus one - but mpz_get_str relies on this) */
+__CPROVER_requires (!__CPROVER_same_object (str, up) && 0 <= gj && gj <= 64 * V_NMAX && (un == 0 ? __CPROVER_w_ok (str, 1) : (V_DOK (up, un, V_KC) && __CPROVER_w_ok (str, gh))))
+__CPROVER_assigns (un == 0: __CPROVER_object_upto (str, 1); un != 0: __CPROVER_object_upto (str, gh))
 __CPROVER_ensures (un == 0 ==> (__CPROVER_return_value == 1 && str[0] == 0))
 __CPROVER_ensures (un != 0 ==> __CPROVER_return_value == (size_t) V_ND (up, un, V_KC))
 __CPROVER_ensures ((un != 0 && gj < V_ND (up, un, V_KC)) ==> str[gj] == V_FIELD (up, un, (unsigned long) (V_ND (up, un, V_KC) - 1 - gj) * V_KC, V_KC));
@@ -40,7 +41,7 @@ def _getstr(base):
     inv0 = common + ' && 1 <= bit_pos && bit_pos <= 63 + V_KC && (i == un - 1 || bit_pos <= 64) && (long) i * 64 + bit_pos == (V_D - WW) * V_KC)'.replace('WW', W)
     inv1 = common + ' && -V_KC <= bit_pos && bit_pos <= 63 && (i == un - 1 || bit_pos + V_KC <= 64) && (long) i * 64 + bit_pos == (V_D - WW - 1) * V_KC)'.replace('WW', W)
     hv = '{ long V_w = nondet_long (); __CPROVER_assume (0 <= V_w && V_w <= V_D); s = str + V_w; }'
-    sl = [('str', '(64 * un + V_KC - 1) / V_KC + 1')]
+    sl = [('str', 'gh')]
     return dict(
         name='mpn_get_str_b%d' % base, props=['C06', 'C04', 'C15'], source='mpn/generic/get_str.c', extra_sources=['mpn/mp_bases.c'], contracts=['mpn.h'],
         contract_text=('#define V_BASE %d\n#define V_KC %d\n' % (base, base.bit_length() - 1)) + GS_CONTRACT, enforce=['__gmpn_get_str'],
@@ -52,9 +53,9 @@ def _getstr(base):
         assumptions=['base %d only (one unit per power-of-two base 2..256); the general-base path (mpn_sb_get_str, mpn_dc_get_str, powers table) is unreachable here and has no unit' % base],
         harness='''void h_mpn_get_str_b%d (void) {
   mp_size_t un = nondet_long (); __CPROVER_assume (0 <= un && un <= V_NMAX);
-  mp_limb_t *up = malloc (un * 8); unsigned char *str = malloc ((64 * un + V_KC - 1) / V_KC + 1);
+  gj = nondet_long (); gh = nondet_long (); __CPROVER_assume (1 <= gh && gh <= 64 * V_NMAX);
+  mp_limb_t *up = malloc (un * 8); unsigned char *str = malloc (gh);
   __CPROVER_assume (up != (void *) 0 && str != (void *) 0);
-  gj = nondet_long (); gh = nondet_long ();
   __gmpn_get_str (str, V_BASE, up, un);
 }''' % base, timeout=1200,
         selftest=[('__gmpn_get_str', r'n0 = \(n1 << -bit_pos\)', 'n0 = (n1 << (-bit_pos - 1))'), ('__gmpn_get_str', r'bits \+= bits_per_digit - cnt;', 'bits += bits_per_digit;')] if base in (8, 16) else [])
@@ -101,3 +102,46 @@ def _setstr(base):
                   ('__gmpn_set_str', r'if \(next_bitpos >= \(64 - 0\)\)', 'if (next_bitpos > (64 - 0))')] if base in (8, 16) else [])
 for _b in (2, 4, 8, 16, 32, 64, 128, 256):
     UNITS.append(_setstr(_b))
+
+# ------------------------------------------------------------------ mpz_get_str for power-of-two bases: sign, digit characters, terminator, allocation - over the
+# mpn_get_str contract PROVED above (same text, replaced at the call)
+ZG_CONTRACT = '''#define V_CH(d) ((char) ((d) < 10 ? '0' + (d) : (V_UPPER ? 'A' : 'a') + ((d) - 10)))
+#define V_NEG(x) (V_SIZ (x) < 0)
+char *__gmpz_get_str (char *res_str, int base, mpz_srcptr x)
+__CPROVER_requires (V_WF (x) && base == V_ZBASE && 0 <= gj && gj <= 64 * V_NMAX && 1 <= gh && gh <= 64 * V_NMAX && (V_SIZ (x) == 0 ? gh == 1 : V_DOK (V_PTR (x), V_ABSIZ (x), V_KC)))
+/* the manual: a caller-supplied block has mpz_sizeinbase (x, base) + 2 bytes */
+__CPROVER_requires (res_str == (char *) 0 || (__CPROVER_w_ok (res_str, gh + 2) && !__CPROVER_same_object (res_str, V_PTR (x)) && !__CPROVER_same_object (res_str, x)))
+__CPROVER_assigns (res_str != (char *) 0: __CPROVER_object_upto (res_str, gh + 2))
+__CPROVER_ensures (__CPROVER_return_value != (char *) 0 && (res_str != (char *) 0 ==> __CPROVER_return_value == res_str))
+/* a block allocated for the caller is resized to exactly strlen + 1 bytes */
+__CPROVER_ensures (res_str == (char *) 0 ==> (__CPROVER_POINTER_OFFSET (__CPROVER_return_value) == 0 && __CPROVER_OBJECT_SIZE (__CPROVER_return_value) == (__CPROVER_size_t) (gh + 1 + V_NEG (x))))
+__CPROVER_ensures ((V_NEG (x) ==> __CPROVER_return_value[0] == '-') && __CPROVER_return_value[gh + V_NEG (x)] == 0)
+__CPROVER_ensures ((V_SIZ (x) == 0 && gj == 0) ==> __CPROVER_return_value[0] == '0')
+/* digit gj (0 = most significant) is the character of the k-bit field [(D-1-gj)k, (D-gj)k) of |x| */
+__CPROVER_ensures ((V_SIZ (x) != 0 && gj < gh) ==> __CPROVER_return_value[gj + V_NEG (x)] == V_CH (V_FIELD (V_PTR (x), V_ABSIZ (x), (unsigned long) (gh - 1 - gj) * V_KC, V_KC)));
+'''
+def _zgetstr(zbase):
+    b = abs(zbase); k = b.bit_length() - 1
+    inv = ('(0 <= i && (unsigned long) i <= str_size && str_size == (x_size == 0 ? (size_t) 1 : (size_t) gh) && __CPROVER_w_ok (res_str, str_size + 1) '
+           '&& ((0 <= gj && gj < (long) i) ==> res_str[gj] == (x_size == 0 ? \'0\' : V_CH (V_FIELD (V_PTR (x), V_ABSIZ (x), (unsigned long) (gh - 1 - gj) * V_KC, V_KC)))) '
+           '&& (((long) i <= gj && (unsigned long) gj < str_size) ==> (unsigned char) res_str[gj] == (x_size == 0 ? 0 : V_FIELD (V_PTR (x), V_ABSIZ (x), (unsigned long) (gh - 1 - gj) * V_KC, V_KC))))')
+    return dict(
+        name='mpz_get_str_b%s' % (str(zbase).replace('-', 'm')), props=['C06', 'C04', 'C15'], source='mpz/get_str.c', extra_sources=['mpn/mp_bases.c'], contracts=['mpn.h', 'mpz.h'],
+        contract_text=('#define V_BASE %d\n#define V_ZBASE (%d)\n#define V_KC %d\n#define V_UPPER %d\n' % (b, zbase, k, 1 if zbase < 0 else 0)) + GS_CONTRACT + ZG_CONTRACT,
+        enforce=['__gmpz_get_str'], replace=['__gmpn_get_str'], cbmc_flags=['--memory-leak-check'],
+        functions={'__gmpz_get_str': dict(loops={0: 'unreachable', 1: dict(scalars=['i'], slices=[('res_str', 'str_size')], inv=inv, dec='((long) str_size - (long) i)', begin='__CPROVER_assume ((unsigned char) res_str[i] < V_BASE);')})},
+        assumptions=['base %d only (power-of-two bases; one unit per base); mpn_get_str is used by the contract proved in unit mpn_get_str_b%d' % (zbase, b),
+                     'the general-base path (copy of the operand, floating-point size estimate) is unreachable here and has no unit',
+                     'every digit mpn_get_str delivered is below the base (its proved post-condition, a k-bit field): instantiated by a woven assume at the digit each iteration of the character loop reads'],
+        harness='#include "/verif/contracts/alloc_stubs.h"\nvoid h_mpz_get_str_b%s (void) {\n  V_INSTALL_ALLOCATOR ();\n' % str(zbase).replace('-', 'm') + mpz_obj('X') + '''  gj = nondet_long (); gh = nondet_long (); gk = 0;
+  __CPROVER_assume (1 <= gh && gh <= 64 * V_NMAX);
+  char *buf = nondet_bool () ? (char *) 0 : malloc (gh + 2);
+  char *r = __gmpz_get_str (buf, V_ZBASE, &X);
+  free (r); free (X._mp_d);
+}''', timeout=1500,
+        selftest=[('__gmpz_get_str', r"\*res_str\+\+ = '-';", "*res_str = '-';"), ('__gmpz_get_str', r'res_str\[str_size\] = 0;', 'res_str[str_size - 1] = 0;'),
+                  ('__gmpz_get_str', r'alloc_size \+= 1 \+ \(x_size<0\);', 'alloc_size += (x_size<0);')] if zbase in (16, -16) else [])
+for _zb in (2, 4, 8, 16, 32, -16, -2):
+    UNITS.append(_zgetstr(_zb))
+    if _zb != 16: UNITS[-1]['tier'] = 'thorough'       # 5-15 minutes each; base 16 stays in the quick tier
+    UNITS[-1]['timeout'] = 2400
